@@ -344,6 +344,11 @@ def run(ctx):
     )
     ctx.assumptions = ["velocities generated by the external GROMACS program itself are outside the property (infretis_genvel=True is used)"]
     run_property(ctx, "call", call_cases, body_call, ctx.pick(400, 4000), shards=ctx.procs)
+    # "when requested": the request has to reach the engine. The moves are run with the scripted engine, which records what
+    # every velocity regeneration was asked for (C09's wire-fencing machinery; its clause on zero_momentum is this property's)
+    from checks import C09
+
+    run_property(ctx, "moves", C09.wf_cases, C09.body_wf, ctx.pick(600, 6000))
     if not getattr(ctx, "part", None) or ctx.part == "stat":
         nd = ctx.pick(400, 4000)
         jobs = []
@@ -364,6 +369,11 @@ def replay(ctx, data):
         ctx.merge(stat_job(tuple([ctx.pid] + list(data["job"]))))
         return
     try:
-        body_call(ctx, data["case"])
+        if data["part"] == "moves":
+            from checks import C09
+
+            C09.body_wf(ctx, data["case"])
+        else:
+            body_call(ctx, data["case"])
     except Violation as v:
         ctx.violation(v.signature, v.message, data)
